@@ -224,6 +224,18 @@ func (c *checkSchema) ensureShortcutKeysAreValid(node *ischema.ObjectNode) error
 }
 
 func actualRootType(s, root *ischema.ISchema) json.Type {
+	return actualRootTypeOf(s, root, map[*ischema.ISchema]struct{}{})
+}
+
+// actualRootTypeOf keeps the set of types being resolved: a type choice that
+// refers back to itself (@a = "@a | @b", @a = "@a") has no determinable type.
+func actualRootTypeOf(s, root *ischema.ISchema, visited map[*ischema.ISchema]struct{}) json.Type {
+	if _, ok := visited[s]; ok {
+		return json.TypeMixed
+	}
+	visited[s] = struct{}{}
+	defer delete(visited, s)
+
 	t := s.RootNode().Type()
 	if t != json.TypeMixed {
 		return t
@@ -238,7 +250,7 @@ func actualRootType(s, root *ischema.ISchema) json.Type {
 			if err != nil {
 				return json.TypeMixed
 			}
-			tt = actualRootType(ss, root)
+			tt = actualRootTypeOf(ss, root, visited)
 			types[tt] = struct{}{}
 		}
 		if len(types) == 1 { // all USER TYPES (example: @aaa | @bbb) have the same type (example: string)
